@@ -146,6 +146,9 @@ fn valid_stream(g: &mut Rng) -> Vec<Vec<u8>> {
     // a session ends with any legal Termination message (string and reason TLVs in any number and order)
     match g.below(8) { 0 | 1 => v.push(termination()), 2 | 3 => v.push(termination_variant(g.below(N_TERMINATION_VARIANTS))), _ => {} }
     if g.chance(1, 4) { v[0] = initiation_variant(g.below(N_INITIATION_VARIANTS)); }
+    else if g.chance(1, 5) { v[0] = initiation_long(g); }
+    // a re-Initiation with long texts in the middle of the session
+    if g.chance(1, 8) { let at = g.range(1, v.len() as u64) as usize; v.insert(at, initiation_long(g)); }
     v
 }
 
